@@ -27,6 +27,12 @@ fn filename_to_position(file_name: &str) -> Option<u64> {
     file_name[4..].parse::<u64>().ok()
 }
 
+#[cfg(quickwit_oss_mrecordlog_verif)]
+#[allow(dead_code)]
+pub(crate) fn verif_filename_to_position(file_name: &str) -> Option<u64> {
+    filename_to_position(file_name)
+}
+
 pub(crate) fn filepath(dir: &Path, file_number: &FileNumber) -> PathBuf {
     dir.join(file_number.filename())
 }
